@@ -347,8 +347,9 @@ pub fn apply(sim: &mut Sim, a: &Act) -> Applied {
             Applied::Done
         }
         Act::RoundTrip(c) => {
-            if sim.gen_of(*c).is_none() {
-                return Applied::Skipped;
+            match sim.gen_of(*c) {
+                Some(gi) if sim.gens[gi].admission == crate::sim::Admission::Accepted && sim.gens[gi].pending_rest.is_none() && !sim.gens[gi].shut_rd && !sim.gens[gi].shut_wr => {}
+                _ => return Applied::Skipped,
             }
             Applied::Trip(sim.round_trip(*c, 16))
         }
